@@ -58,6 +58,8 @@ def stage(out, prop, tier, seed):
     """The Gov pipeline. For C17 every finding counts; when called for C02 (token conservation across
     DAO transfers and burns) only findings about balances and supply do."""
     size = SIZES[tier]
+    if prop != "C17":   # as a stage of another property's check: half the sample
+        size = dict(size, num=max(10, size["num"] // 2), maxbeh=size["maxbeh"] // 2)
     common.build_harness(["posdrv"])
     out.assumptions += ["parameter values are compared through per-key value alphabets (index of the stored raw JSON among the values the driver can write); "
                         "every parameter of every subspace is read raw from the params store after every call",
@@ -72,7 +74,9 @@ def stage(out, prop, tier, seed):
         # rightful owners with up to two export/import restarts in between (what was changed must survive them)
         seen = set()
         for si, (sc, nmax) in enumerate([(gcfg(MaxTx=size["depth"] - 2, GovFee=1 + seed % 2), size["maxbeh"]),
-                                         (gcfg(MaxTx=size["depth"] - 2, GovFee=1 + seed % 2, TxFocus="owner", GMaxExp=2), max(200, size["maxbeh"] // 5))]):
+                                         (gcfg(MaxTx=size["depth"] - 2, GovFee=1 + seed % 2, TxFocus="owner", GMaxExp=2), max(200, size["maxbeh"] // 5)),
+                                         # a chain whose DAO starts empty (the default genesis): everything the DAO owner tries is refused
+                                         (gcfg(MaxTx=size["depth"] - 2, GovFee=1, DaoTokens=0, Amts={0, 2}), max(150, size["maxbeh"] // 8))]):
             sim = dict(sc, Depth=size["depth"], OneIn=size["onein"])
             files = tlagen.model("SIMG", "GovSim", sim, spec="SimSpec", constraints=["Emit"])
             res = common.run_tlc("SIMG", "SIMG.cfg", d, timeout=size["simt"], files=files, simulate="num=%d" % size["num"],
@@ -113,6 +117,9 @@ def stage(out, prop, tier, seed):
                 lineno, div, bad = dv["line"], dv["div"], dv["bad"]
                 ln = lines[lineno - 1]
                 sigs = ["%s" % b for b in sorted(bad)] + ["diverge:%s@%s" % (f, ln["act"].get("kind", ln["act"]["a"])) for f in sorted(div)]
+                if prop == "C11":
+                    # "a rejected transaction leaves the state as it was, except for the fee" holds for governance messages too
+                    sigs = [x.replace("C17.RejectedChangesNothing", "C11.RejectedChangesNothing") for x in sigs if x == "C17.RejectedChangesNothing"]
                 if prop == "C02":
                     sigs = [x.replace("C17.SupplyIsSum", "C02.SupplyIsSum") for x in sigs
                             if x == "C17.SupplyIsSum" or x == "C17.DaoOnlyByOwner" or x.startswith("diverge:bal@") or x.startswith("diverge:supply@")]
